@@ -4,25 +4,33 @@
 //           x required/optional flag per child x named("m<i>")/unnamed("") per node x a hook-result mode per node:
 //             ok | initx (init hook fails on every call) | startx (start hook fails on every call)
 //             | initx1 / startx1 (the hook fails on its FIRST call only: a rolled-back attempt is followed by a successful retry)
+//             | initx2 / startx2 (the hook fails on its SECOND call only: a failure after a success; at most one such module per
+//               tree, the other modules then ok / initx / startx / nocfg; in trees with exactly nmax nodes attach variant 0 only)
 //             | nocfg (named nodes only: the node's own section is missing from the config, initialize() fails without a hook)
 //           x attach variant: 0 add(child,required) top-down (child added to an already attached parent)
 //                             1 addAs(child,name[,false]) with the one-argument-less overload for required children, probes constructed
 //                               under a temporary name, sub-trees built completely and attached bottom-up
 //                             2 add(child[,false]) (default argument for required children), bottom-up      (trees < nmax nodes only)
 //                             3 addAs as in 1, top-down                                                   (trees < nmax nodes only)
+//                             4 as 0, but the last child of every module is added by that module from its first onInit()
+//                               (the module is not initialised yet, so the add must be accepted)            (trees < nmax nodes only)
+//           An addAs probe is constructed under the final name of the sibling registered before it (first children: "tmp"); bottom-up variants allocate in reverse id order.
+//           Whether add()/addAs() accepts a child is predicted from the program (refused iff a sibling attached earlier has the
+//           same final name = second unnamed child); the real build must agree (a refused legitimate child / an accepted
+//           duplicate is a finding); correctly refused programs are counted and skipped.
 //           Modes of the descendants of a module that can never initialise (initx / nocfg) cannot matter and are fixed to ok.
-//           Programs that the real add()/addAs() rejects (two unnamed siblings = "duplicate name") are counted and skipped.
 //           After every build two add() calls that must be refused are made (re-add of an attached child, a second module with
 //           the name of an existing sibling), and after every root call that leaves the root initialised (by the reference) an
 //           add() on the root that must be refused as well; a module whose add() was refused must never see a hook.
 // HISTORIES every sequence of root calls over {initialize,start,stop,cleanup} up to `depth`, explored
-//           breadth-first per program with canonical-state dedup (state = state_ of every node + the per-node oracle
+//           breadth-first per program with canonical-state dedup (state = state() of every node + the per-node oracle
 //           automaton + the reference model's state + the call counters that decide future hook results + capped
-//           history counters: failed initialize() passes, failed start() passes, completed cleanup passes, so that a
+//           history counters: failed initialize() passes, failed start() passes, completed cleanup passes, stop passes, so that a
 //           rolled-back failure or a finished life cycle is NOT merged with the initial state); every explored
 //           history is finished twice on a fresh tree: "cleanup(); delete root" and "delete root" only.
 //           Plus the conditional call order of run_in_frontend.cpp:158-169 / run_in_backend.cpp
-//           (initialize; if ok {start; if ok {stop}; cleanup}; destroy) for every program.
+//           (initialize; if ok {start; if ok {stop}; cleanup}; destroy) for every program, run with the config that the REAL
+//           fillDefaultConfig() writes for the tree (check.py compares the apps call order of those two files with a transcript).
 // ORACLE    (hook log of the probe modules only; DESIGN.md 1.7: not more than the statement)
 //   O1 within one root call ("pass") init hooks and start hooks appear in strictly increasing pre-order id
 //      (parent before children, children in registration order, nested); stop / cleanup hooks are LIFO w.r.t.
@@ -72,25 +80,31 @@ struct FakeCtx : Context {
 };
 static FakeCtx g_ctx;
 
-enum { MAXN = 6, MAXSEQ = 12, MAXLOG = 512 };
+enum { MAXN = 6, MAXSEQ = 14, MAXLOG = 512 };
 enum { HI, HS, HT, HC };                       // hook kinds: init, start, stop, cleanup
 enum { OP_INIT, OP_START, OP_STOP, OP_CLEANUP, OP_FINAL_CLEANUP, OP_DESTROY };
 enum { FIN_CLEANUP_DESTROY, FIN_DESTROY };
-enum { M_OK, M_INITX, M_STARTX, M_INITX1, M_STARTX1, M_NOCFG, NFAIL };
-enum { V_ADD_TOPDOWN, V_ADDAS_BOTTOMUP, V_ADDDEF_BOTTOMUP, V_ADDAS_TOPDOWN, NVAR };
-enum { A_READD = 1, A_DUP = 2, A_LATE = 4, A_EXTRAHOOK = 8 };
+enum { M_OK, M_INITX, M_STARTX, M_INITX1, M_STARTX1, M_INITX2, M_STARTX2, M_NOCFG, NFAIL };
+enum { V_ADD_TOPDOWN, V_ADDAS_BOTTOMUP, V_ADDDEF_BOTTOMUP, V_ADDAS_TOPDOWN, V_ADD_FROM_ONINIT, NVAR };
+enum { A_READD = 1, A_DUP = 2, A_LATE = 4, A_EXTRAHOOK = 8, A_HOOKADD = 16 };
 enum { JUDGE_NONE, JUDGE_ALL, JUDGE_NONROOT };
 static const char *kOpName[] = {"initialize", "start", "stop", "cleanup", "final-cleanup", "destroy"};
 static const char kHookCh[] = "ISTC";
 static const char *kHookName[] = {"init", "start", "stop", "cleanup"};
-static const char *kFailName[] = {"ok", "initx", "startx", "initx1", "startx1", "nocfg"};
-static const char *kVarName[] = {"add(child,required)/top-down", "addAs+default-arg/bottom-up", "add+default-arg/bottom-up", "addAs+default-arg/top-down"};
+static const char *kFailName[] = {"ok", "initx", "startx", "initx1", "startx1", "initx2", "startx2", "nocfg"};
+static const char *kVarName[] = {"add(child,required)/top-down", "addAs+default-arg/bottom-up", "add+default-arg/bottom-up", "addAs+default-arg/top-down", "last-child-of-every-module-added-from-its-onInit"};
 
 // the program's definition of a hook result: mode x hook kind x number of earlier calls of that hook on that module
 static inline bool hookOk(int mode, int kind, int earlier_calls) {
-  if (kind == HI) return !(mode == M_INITX || (mode == M_INITX1 && earlier_calls == 0));
-  if (kind == HS) return !(mode == M_STARTX || (mode == M_STARTX1 && earlier_calls == 0));
+  if (kind == HI) return !(mode == M_INITX || (mode == M_INITX1 && earlier_calls == 0) || (mode == M_INITX2 && earlier_calls == 1));
+  if (kind == HS) return !(mode == M_STARTX || (mode == M_STARTX1 && earlier_calls == 0) || (mode == M_STARTX2 && earlier_calls == 1));
   return true;
+}
+
+// what of a hook's call counter can still influence a future hook result
+static inline int cntKey(int mode, int kind, int calls) {
+  int one = kind == HI ? M_INITX1 : M_STARTX1, two = kind == HI ? M_INITX2 : M_STARTX2;
+  return mode == one ? (calls > 0) : mode == two ? (calls > 2 ? 2 : calls) : 0;
 }
 
 struct Ev { uint8_t pass, kind, node, ok; };
@@ -104,10 +118,16 @@ static inline void logev(int kind, int node, bool ok) {
   g_nlog++;
 }
 
+static bool *g_attached;      // per node of the tree being executed: is it owned by a parent
 struct Probe : Module {
   int id, fail, ni, ns;   // id < 0: a module whose add() must have been refused
-  Probe(int i, int f, const std::string &n) : Module(n, g_ctx), id(i), fail(f), ni(0), ns(0) {}
-  bool onInit(const Json &) override { if (id < 0) { g_anom |= A_EXTRAHOOK; return true; } bool ok = hookOk(fail, HI, ni++); logev(HI, id, ok); return ok; }
+  Probe *deferred; bool deferred_req;   // attach variant 4: this module's last child, added from its first onInit()
+  Probe(int i, int f, const std::string &n) : Module(n, g_ctx), id(i), fail(f), ni(0), ns(0), deferred(nullptr), deferred_req(true) {}
+  bool onInit(const Json &) override {
+    if (id < 0) { g_anom |= A_EXTRAHOOK; return true; }
+    if (deferred) { Probe *d = deferred; deferred = nullptr; if (add(d, deferred_req)) g_attached[d->id] = true; else g_anom |= A_HOOKADD; }   // the module is not initialised yet
+    bool ok = hookOk(fail, HI, ni++); logev(HI, id, ok); return ok;
+  }
   bool onStart() override { if (id < 0) { g_anom |= A_EXTRAHOOK; return true; } bool ok = hookOk(fail, HS, ns++); logev(HS, id, ok); return ok; }
   void onStop() override { if (id < 0) { g_anom |= A_EXTRAHOOK; return; } logev(HT, id, true); }
   void onCleanup() override { if (id < 0) { g_anom |= A_EXTRAHOOK; return; } logev(HC, id, true); }
@@ -148,7 +168,7 @@ static bool parseSpec(const char *t, Prog &p) {
   p.var = (*c >= '0' && *c < '0' + NVAR) ? *c - '0' : 0; return true;
 }
 
-static const std::string kNames[MAXN] = {"m0", "m1", "m2", "m3", "m4", "m5"}, kTmpNames[MAXN] = {"tmp0", "tmp1", "tmp2", "tmp3", "tmp4", "tmp5"}, kNoName;
+static const std::string kNames[MAXN] = {"m0", "m1", "m2", "m3", "m4", "m5"}, kTmpName = "tmp", kNoName;
 static const std::string &finalName(const Prog &p, int i) { return p.named[i] ? kNames[i] : kNoName; }
 
 // the config the framework would hand to the root: one (nested) section per named module, written from the program
@@ -160,42 +180,79 @@ static Json buildConfig(const Prog &p) {
     for (int j = i + 1; j < p.n; j++) if (p.par[j] == i) fill(j, js_this);
   };
   fill(0, cfg);
+  return cfg;
+}
+static void eraseSections(const Prog &p, Json &cfg) {
   for (int k = p.n - 1; k >= 0; k--) if (p.fail[k] == M_NOCFG) {
     int path[MAXN], m = 0; for (int a = p.par[k]; a >= 0; a = p.par[a]) path[m++] = a;
     Json *j = &cfg; bool ok = true;
     while (m > 0 && ok) { int a = path[--m]; if (p.named[a]) { if (j->is_object() && j->contains(finalName(p, a))) j = &(*j)[finalName(p, a)]; else ok = false; } }
     if (ok && j->is_object()) j->erase(finalName(p, k));
   }
-  return cfg;
 }
 
 static bool attach(const Prog &p, Probe **nodes, int i) {
   Probe *par = nodes[p.par[i]], *c = nodes[i];
   switch (p.var) {
-    case V_ADD_TOPDOWN: return par->add(c, p.req[i]);
+    case V_ADD_TOPDOWN: case V_ADD_FROM_ONINIT: return par->add(c, p.req[i]);
     case V_ADDDEF_BOTTOMUP: return p.req[i] ? par->add(c) : par->add(c, false);
     default: return p.req[i] ? par->addAs(c, finalName(p, i)) : par->addAs(c, finalName(p, i), false);
   }
 }
 
-// build the real tree. Returns nullptr when add()/addAs() rejects a child of the program itself.
-static Probe *buildTree(const Prog &p, Probe **nodes) {
+// attach variant 4: is node i the last child of its parent (then it is added from the parent's first onInit())
+static bool isDeferred(const Prog &p, int i) {
+  if (p.var != V_ADD_FROM_ONINIT || i == 0) return false;
+  for (int j = i + 1; j < p.n; j++) if (p.par[j] == p.par[i]) return false;
+  return true;
+}
+// the order in which the build attaches the children (deferred ones are not attached by the build)
+static int attachOrder(const Prog &p, int *ord) {
+  bool bottomup = p.var == V_ADDAS_BOTTOMUP || p.var == V_ADDDEF_BOTTOMUP; int m = 0;
+  if (!bottomup) { for (int i = 1; i < p.n; i++) if (!isDeferred(p, i)) ord[m++] = i; }
+  else { for (int par = p.n - 1; par >= 0; par--) for (int i = par + 1; i < p.n; i++) if (p.par[i] == par) ord[m++] = i; }
+  return m;
+}
+// REFERENCE for add()/addAs(): a child is refused iff a sibling attached before it has the same (final) name,
+// i.e. a second unnamed child of one parent. Returns the first child the build must see refused, -1 = none.
+static int predictRefused(const Prog &p) {
+  int ord[MAXN], m = attachOrder(p, ord);
+  for (int k = 0; k < m; k++) for (int e = 0; e < k; e++) if (p.par[ord[e]] == p.par[ord[k]] && p.named[ord[e]] == p.named[ord[k]] && !p.named[ord[k]]) return ord[k];
+  return -1;
+}
+static bool treeValid(const Prog &p) {   // no two children of one parent with equal names
+  for (int i = 1; i < p.n; i++) for (int j = i + 1; j < p.n; j++) if (p.par[i] == p.par[j] && !p.named[i] && !p.named[j]) return false;
+  return true;
+}
+
+// the name an addAs probe is constructed under: the FINAL name of the sibling registered just before it (so a rename that comes
+// after the duplicate check, or is lost, collides), "tmp" for a first child (all first children share it)
+static const std::string &tmpName(const Prog &p, int i) {
+  for (int j = i - 1; j > p.par[i]; j--) if (p.par[j] == p.par[i]) return finalName(p, j);
+  return kTmpName;
+}
+// build the real tree; attached[i] says who is owned by a parent afterwards. Returns the first child whose add()/addAs()
+// was refused (the build stops there), -1 when every add() of the build was accepted.
+static int buildTree(const Prog &p, Probe **nodes, bool *attached) {
   bool as = p.var == V_ADDAS_BOTTOMUP || p.var == V_ADDAS_TOPDOWN;
   bool bottomup = p.var == V_ADDAS_BOTTOMUP || p.var == V_ADDDEF_BOTTOMUP;
-  bool attached[MAXN] = {false};
-  for (int i = 0; i < p.n; i++) nodes[i] = new Probe(i, p.fail[i], (as && i > 0) ? kTmpNames[i] : finalName(p, i));
-  bool ok = true;
-  if (!bottomup) { for (int i = 1; i < p.n && ok; i++) ok = attached[i] = attach(p, nodes, i); }
-  else { for (int par = p.n - 1; par >= 0 && ok; par--) for (int i = par + 1; i < p.n && ok; i++) if (p.par[i] == par) ok = attached[i] = attach(p, nodes, i); }
-  if (!ok) { for (int i = 0; i < p.n; i++) if (!attached[i]) delete nodes[i]; return nullptr; }
-  // O8: adds that must be refused
-  if (p.n >= 2) {
+  // (bottom-up variants allocate in reverse id order: addresses do not grow with the registration order)
+  for (int k = 0; k < p.n; k++) { int i = bottomup ? p.n - 1 - k : k; attached[i] = false; nodes[i] = new Probe(i, p.fail[i], (as && i > 0) ? tmpName(p, i) : finalName(p, i)); }
+  int ord[MAXN], m = attachOrder(p, ord);
+  for (int k = 0; k < m; k++) { if (!(attached[ord[k]] = attach(p, nodes, ord[k]))) return ord[k]; }
+  for (int i = 1; i < p.n; i++) if (isDeferred(p, i)) { nodes[p.par[i]]->deferred = nodes[i]; nodes[p.par[i]]->deferred_req = p.req[i]; }
+  // O8: adds that must be refused (not in variant 4, where the last node / the root's only child may still be unattached)
+  if (p.n >= 2 && p.var != V_ADD_FROM_ONINIT) {
     c_refused_adds += 2;
     if (nodes[0]->add(nodes[p.n - 1], false)) g_anom |= A_READD;                       // already has a parent
     Probe *x = new Probe(-1, M_OK, finalName(p, 1));                                    // node 1 is the root's first child
     if (nodes[0]->add(x, false)) g_anom |= A_DUP; else delete x;
   }
-  return nodes[0];
+  return -1;
+}
+static void destroyTree(const Prog &p, Probe **nodes, const bool *attached) {   // the root and whatever no parent owns
+  delete nodes[0];
+  for (int i = 1; i < p.n; i++) if (!attached[i]) delete nodes[i];
 }
 
 // one driver for the real tree and for the reference model: the same call sequence, the same pass numbering
@@ -283,7 +340,7 @@ struct Model {
     p = &pp; skip = sk; nlog = 0; memset(st, 0, sizeof st); memset(ni, 0, sizeof ni); memset(ns, 0, sizeof ns);
     int k = drive(*this, seq, len, frontend, ret); nops = k;
     nlog_snap = nlog; memcpy(st_snap, st, sizeof st);
-    for (int i = 0; i < pp.n; i++) { ni_snap[i] = ni[i] > 0; ns_snap[i] = ns[i] > 0; }
+    for (int i = 0; i < pp.n; i++) { ni_snap[i] = (uint8_t)cntKey(pp.fail[i], HI, ni[i]); ns_snap[i] = (uint8_t)cntKey(pp.fail[i], HS, ns[i]); }
     for (int i = 0; i < pp.n; i++) if (!present(i)) st_snap[i] = 3;
     if (!frontend && fin == FIN_CLEANUP_DESTROY) { setPass(k, OP_FINAL_CLEANUP); cleanup(); k++; }
     setPass(k, OP_DESTROY); destroy_(0);
@@ -294,8 +351,8 @@ struct Model {
 struct Run {
   Ev log[MAXLOG]; int nlog; int nlog_snap;   // hooks; number of hooks before the final
   int npass, nops;                           // passes incl. final ones; root calls before the final
-  uint8_t state_snap[MAXN];                  // Module::state_ per node before the final
-  uint8_t ni_snap[MAXN], ns_snap[MAXN];      // probe call counters before the final (capped at 1)
+  uint8_t state_snap[MAXN];                  // Module::state() per node before the final
+  uint8_t ni_snap[MAXN], ns_snap[MAXN];      // probe call counters before the final (as far as they decide future hook results)
   uint8_t ret[MAXSEQ + 4];                   // return values of initialize/start (1/0), 2 for void calls
   int anom;
 };
@@ -317,16 +374,17 @@ struct RealT {
 };
 
 static void execute(const Prog &p, const Json &cfg, const uint8_t *seq, int len, int fin, bool frontend, const Model &m, Run &r) {
-  Probe *nodes[MAXN];
-  g_nlog = 0; g_pass = 0; g_anom = 0;
-  Probe *root = buildTree(p, nodes);
+  Probe *nodes[MAXN]; bool attached[MAXN];
+  g_nlog = 0; g_pass = 0; g_anom = 0; g_attached = attached;
+  buildTree(p, nodes, attached);   // acceptance was judged by exploreProgram
+  Probe *root = nodes[0];
   RealT t{root, &cfg, &m, nullptr};
   int k = drive(t, seq, len, frontend, r.ret); r.nops = k;
   r.nlog_snap = g_nlog;
-  for (int i = 0; i < p.n; i++) { r.state_snap[i] = (uint8_t)nodes[i]->state_; r.ni_snap[i] = nodes[i]->ni > 0; r.ns_snap[i] = nodes[i]->ns > 0; }
+  for (int i = 0; i < p.n; i++) { r.state_snap[i] = (uint8_t)nodes[i]->state(); r.ni_snap[i] = (uint8_t)cntKey(p.fail[i], HI, nodes[i]->ni); r.ns_snap[i] = (uint8_t)cntKey(p.fail[i], HS, nodes[i]->ns); }
   g_pass = (uint8_t)k;
   if (!frontend && fin == FIN_CLEANUP_DESTROY) { root->cleanup(); k++; g_pass = (uint8_t)k; }
-  delete root;
+  destroyTree(p, nodes, attached);
   delete t.late;
   r.npass = k + 1;
   r.nlog = g_nlog < MAXLOG ? g_nlog : MAXLOG;
@@ -490,6 +548,7 @@ static void anomalies(int anom, std::vector<Finding> &out) {
   if (anom & A_READD) out.push_back({"add-accepted-child-that-already-has-a-parent", "root->add(last node) returned true after the build"});
   if (anom & A_DUP) out.push_back({"add-accepted-second-child-with-the-name-of-a-sibling", "root->add(new module named like node 1) returned true"});
   if (anom & A_LATE) out.push_back({"add-accepted-on-initialised-module", "root->add(new module) returned true after a root call that left the root initialised"});
+  if (anom & A_HOOKADD) out.push_back({"add-from-inside-onInit-refused", "add(child) called by a module from its own onInit (the module is not initialised yet) returned false"});
   if (anom & A_EXTRAHOOK) out.push_back({"hook-dispatched-to-module-whose-add-was-refused", "a module that must not be part of the tree got a hook"});
 }
 
@@ -530,7 +589,7 @@ static long c_prog_var[NVAR];
 static std::unordered_set<uint64_t> g_loghashes;
 static std::set<std::string> g_profiles;
 static int g_samples = 0;
-static int g_cap_fail = 2, g_cap_cycle = 1;
+static int g_cap_fail = 2, g_cap_cycle = 1, g_cap_stop = 1;
 
 static uint64_t hashLog(const Run &r) { uint64_t h = 1469598103934665603ULL; for (int i = 0; i < r.nlog; i++) { uint32_t v = r.log[i].pass | (r.log[i].kind << 8) | (r.log[i].node << 12) | (r.log[i].ok << 16); h = (h ^ v) * 1099511628211ULL; } return h; }
 
@@ -565,7 +624,7 @@ static void judgeRun(const Prog &p, const std::vector<int> &optFail, const uint8
   size_t before = fs.size();
   compareReference(p, r, m, fs);
   // "add() on an initialised root must be refused" is decided by the reference's root state: only meaningful while the real tree agrees with it
-  anomalies(fs.size() == before ? r.anom : (r.anom & (A_READD | A_DUP)), fs);
+  anomalies(fs.size() == before ? r.anom : (r.anom & (A_READD | A_DUP | A_HOOKADD)), fs);
   for (int f : optFail) {
     mr.run(p, f, seq, len, frontend, fin); c_meta++; c_model_runs++;
     compareOutside(p, f, r.log, r.nlog, mr.log, mr.nlog, fs);
@@ -599,20 +658,21 @@ static std::string evalHistory(const Prog &p, const Json &cfg, const std::vector
     canon += char('0' + ri); canon += char('0' + rs); canon += char('0' + (snap.oi[i] ? snap.lateC[i] : 0) * 2 + (snap.os[i] ? snap.lateT[i] : 0));
     // reference state, and the call counters that decide future hook results
     canon += char('0' + m.st_snap[i]);
-    canon += char('0' + (p.fail[i] == M_INITX1 ? r.ni_snap[i] : 0) * 2 + (p.fail[i] == M_STARTX1 ? r.ns_snap[i] : 0));
-    canon += char('0' + (p.fail[i] == M_INITX1 ? m.ni_snap[i] : 0) * 2 + (p.fail[i] == M_STARTX1 ? m.ns_snap[i] : 0));
+    canon += char('0' + r.ni_snap[i] * 3 + r.ns_snap[i]);
+    canon += char('0' + m.ni_snap[i] * 3 + m.ns_snap[i]);
   }
   // history counters (capped): a rolled-back failure / a finished life cycle is a different state than "never tried"
   if (!frontend) {
-    int fi = 0, fst = 0, cyc = 0;
+    int fi = 0, fst = 0, cyc = 0, stp = 0;
     for (int i = 0; i < len; i++) {
-      bool hooks = false, chook = false;
-      for (int j = 0; j < r.nlog_snap; j++) if (r.log[j].pass == i) { hooks = true; if (r.log[j].kind == HC) chook = true; }
+      bool hooks = false, chook = false, thook = false;
+      for (int j = 0; j < r.nlog_snap; j++) if (r.log[j].pass == i) { hooks = true; if (r.log[j].kind == HC) chook = true; if (r.log[j].kind == HT) thook = true; }
+      if (seq[i] == OP_STOP && thook) stp++;
       if (seq[i] == OP_INIT && r.ret[i] == 0 && hooks) fi++;
       if (seq[i] == OP_START && r.ret[i] == 0 && hooks) fst++;
       if (seq[i] == OP_CLEANUP && chook) cyc++;
     }
-    canon += '#'; canon += char('0' + std::min(fi, g_cap_fail)); canon += char('0' + std::min(fst, g_cap_fail)); canon += char('0' + std::min(cyc, g_cap_cycle));
+    canon += '#'; canon += char('0' + std::min(fi, g_cap_fail)); canon += char('0' + std::min(fst, g_cap_fail)); canon += char('0' + std::min(cyc, g_cap_cycle)); canon += char('0' + std::min(stp, g_cap_stop));
   }
   canon += char('0' + r.anom);   // a wrongly accepted add() changes the tree
   canon += canon_red;
@@ -640,14 +700,30 @@ static std::string evalHistory(const Prog &p, const Json &cfg, const std::vector
 
 static double g_deadline; static bool g_capped = false;
 
-static long c_fixpoint, c_maxdepth_new, c_pruned;
+static long c_fixpoint, c_maxdepth_new, c_pruned, c_add_mismatch, c_realfill, c_realfill_same;
 static void exploreProgram(const Prog &p, int depth, bool xcheck, int xdepth) {
-  // acceptance by the real add()/addAs()
-  Probe *nodes[MAXN]; Probe *root = buildTree(p, nodes);
-  if (!root) { c_rejected++; return; }
-  delete root;
-  Json cfg = buildConfig(p);
-  c_programs++; c_prog_var[p.var]++; g_cur_spec = progSpec(p);
+  // acceptance by add()/addAs() is decided by the reference (predictRefused), the real build must agree
+  Probe *nodes[MAXN]; bool attached[MAXN]; g_anom = 0; g_attached = attached; g_cur_spec = progSpec(p);
+  snprintf(hx::g_cur, 256, "crash while building :: replay %s /cd", g_cur_spec.c_str());
+  int refused = buildTree(p, nodes, attached), expect = predictRefused(p);
+  Json cfg = buildConfig(p), cfg_real;
+  bool realfill = refused < 0 && p.var != V_ADD_FROM_ONINIT;   // (variant 4: the deferred children do not exist for fillDefaultConfig yet)
+  if (realfill) nodes[0]->fillDefaultConfig(cfg_real);
+  destroyTree(p, nodes, attached);
+  if (refused != expect) {
+    static Run none; none.nlog = 0; c_add_mismatch++;
+    std::vector<Finding> fs;
+    if (expect < 0) fs.push_back({"add-refused-a-child-the-tree-allows", "add()/addAs() of node " + std::to_string(refused) + " returned false; no sibling attached before it has its name"});
+    else if (refused < 0) fs.push_back({"add-accepted-two-children-with-equal-names", "add()/addAs() of node " + std::to_string(expect) + " returned true although an earlier sibling has the same name"});
+    else fs.push_back({"add-refused-the-wrong-child", "node " + std::to_string(refused) + " refused, reference: node " + std::to_string(expect)});
+    record(p, nullptr, 0, false, FIN_CLEANUP_DESTROY, none, fs);
+    return;
+  }
+  if (refused >= 0 || !treeValid(p)) { c_rejected++; return; }   // correctly refused (or, variant 4, a deferred child would be)
+  // the frontend script gets the config the REAL fillDefaultConfig() writes (as Main does), everything else the one written from the tree
+  if (realfill) { c_realfill++; if (cfg_real == cfg) c_realfill_same++; } else cfg_real = cfg;
+  eraseSections(p, cfg); eraseSections(p, cfg_real);
+  c_programs++; c_prog_var[p.var]++;
   // optional children whose subtree contains a module that fails (O5 reductions)
   std::vector<int> optFail;
   for (int f = 1; f < p.n; f++) if (!p.req[f]) {
@@ -670,7 +746,7 @@ static void exploreProgram(const Prog &p, int depth, bool xcheck, int xdepth) {
     layer.swap(next);
   }
   if (layer.empty()) c_fixpoint++;   // no unexplored state left: longer sequences cannot reach anything new
-  { std::vector<std::string> sg; evalHistory(p, cfg, optFail, nullptr, 0, true, &sg); c_trans++; }
+  { std::vector<std::string> sg; evalHistory(p, cfg_real, optFail, nullptr, 0, true, &sg); c_trans++; }
   // cross-check of the dedup: plain enumeration of ALL sequences reaches no other canonical state / signature
   if (xcheck) {
     c_xcheck_progs++; g_in_xcheck = true;
@@ -705,10 +781,15 @@ static int replay(const char *ps, const char *qs) {
   const char *c = qs; if (*c == 'F') { frontend = true; c++; }
   while (*c >= '0' && *c <= '3' && len < MAXSEQ) seq[len++] = (uint8_t)(*c++ - '0');
   if (!strcmp(c, "/d") || frontend) fin = FIN_DESTROY;
-  Probe *nodes[MAXN]; Probe *root = buildTree(p, nodes);
-  if (!root) { printf("program rejected by Module::add()\n"); return 0; }
-  delete root;
-  Json cfg = buildConfig(p);
+  Probe *nodes[MAXN]; bool attached[MAXN]; g_attached = attached;
+  int refused = buildTree(p, nodes, attached), expect = predictRefused(p);
+  Json cfg = buildConfig(p), cfg_real;
+  if (refused < 0 && p.var != V_ADD_FROM_ONINIT) nodes[0]->fillDefaultConfig(cfg_real); else cfg_real = cfg;
+  destroyTree(p, nodes, attached);
+  if (refused != expect) { printf("@VIOL add()/addAs(): first refused child %d, reference %d\n", refused, expect); return 0; }
+  if (refused >= 0 || !treeValid(p)) { printf("program rejected by Module::add() (as the reference says)\n"); return 0; }
+  if (frontend) cfg = cfg_real;
+  eraseSections(p, cfg);
   std::vector<int> optFail;
   for (int f = 1; f < p.n; f++) if (!p.req[f]) { bool any = false; for (int x = f; x < p.n; x++) if (p.inSub(x, f) && p.fail[x] != M_OK) any = true; if (any) optFail.push_back(f); }
   static Run r; static Model m; m.run(p, -1, seq, len, frontend, fin); execute(p, cfg, seq, len, fin, frontend, m, r);
@@ -726,7 +807,7 @@ int main(int argc, char **argv) {
   int nmax = argc > 2 ? atoi(argv[2]) : 3, depth = argc > 3 ? atoi(argv[3]) : 4, k = argc > 4 ? atoi(argv[4]) : 0, K = argc > 5 ? atoi(argv[5]) : 1;
   int xn = argc > 6 ? atoi(argv[6]) : 0; int xdepth = argc > 7 ? atoi(argv[7]) : depth; if (xdepth > depth) xdepth = depth;
   if (argc > 8) g_cap_fail = atoi(argv[8]); if (argc > 9) g_cap_cycle = atoi(argv[9]);
-  int maxdev = argc > 10 ? atoi(argv[10]) : 0;
+  int maxdev = argc > 10 ? atoi(argv[10]) : 0; if (argc > 11) g_cap_stop = atoi(argv[11]);
   if (nmax >= MAXN) nmax = MAXN - 1; if (depth > MAXSEQ) depth = MAXSEQ;
   hx::install_crash_reporter("C11-crash");
   g_deadline = hx::deadline_from_env(1200);
@@ -741,10 +822,13 @@ int main(int argc, char **argv) {
           long combos = 1;
           for (int i = 0; i < n; i++) { p.par[i] = sh[si][i]; p.req[i] = i ? ((rq >> (i - 1)) & 1) : true; p.named[i] = (nm >> i) & 1; combos *= p.named[i] ? NFAIL : NFAIL - 1; }
           for (long fl = 0; fl < combos && !g_capped; fl++) {
-            if (maxdev > 0 && n == nmax) { long t = fl; int dev = 0; for (int i = 0; i < n; i++) { int r = p.named[i] ? NFAIL : NFAIL - 1; dev += (t % r) != M_OK; t /= r; } if (dev > maxdev) continue; }
-            { // the modes of the descendants of a module that can never initialise (initx / nocfg) cannot matter: only "ok" is kept for them
-              long t = fl; int md[MAXN]; bool dead = false;
+            { long t = fl; int md[MAXN], dev = 0, x2 = 0, x1 = 0; bool dead = false;
               for (int i = 0; i < n; i++) { int r = p.named[i] ? NFAIL : NFAIL - 1; md[i] = (int)(t % r); t /= r; }
+              for (int i = 0; i < n; i++) { dev += md[i] != M_OK; x2 += md[i] == M_INITX2 || md[i] == M_STARTX2; x1 += md[i] == M_INITX1 || md[i] == M_STARTX1; }
+              if (maxdev > 0 && n == nmax && dev > maxdev) continue;
+              // fails-on-the-second-call-only: at most one such module per tree, the others then ok or failing always (initx, startx, nocfg)
+              if (x2 > 1 || (x2 == 1 && x1 > 0)) continue;
+              // the modes of the descendants of a module that can never initialise (initx / nocfg) cannot matter: only "ok" is kept for them
               for (int i = 1; i < n && !dead; i++) if (md[i] != M_OK) for (int a = p.par[i]; a >= 0; a = p.par[a]) if (md[a] == M_INITX || md[a] == M_NOCFG) { dead = true; break; }
               if (dead) { if (k == 0) c_pruned++; continue; } }
             if (base++ % K != k) continue;
@@ -752,18 +836,20 @@ int main(int argc, char **argv) {
             if (hx::now_s() > g_deadline) { g_capped = true; printf("@CAP part %d/%d: deadline reached at n=%d shape=%zu/%zu req=%d names=%d modes=%ld (programs=%ld)\n", k, K, n, si, sh.size(), rq, nm, fl, c_programs); break; }
             long t = fl;
             for (int i = 0; i < n; i++) { int r = p.named[i] ? NFAIL : NFAIL - 1; p.fail[i] = (int)(t % r); t /= r; }
-            for (int v = 0; v < nvar; v++) { p.var = v; exploreProgram(p, depth, n <= xn, xdepth); }
+            bool x2prog = false; for (int i = 0; i < n; i++) if (p.fail[i] == M_INITX2 || p.fail[i] == M_STARTX2) x2prog = true;
+            int nv = (x2prog && n == nmax && n > 1) ? 1 : nvar;   // second-call-only modes in the largest trees: attach variant 0 only
+            for (int v = 0; v < nv; v++) { p.var = v; exploreProgram(p, depth, n <= xn, xdepth); }
           }
         }
   }
   for (auto &kv : g_best) for (auto &b : kv.second) printf("@VIOL sig=%s :: %s\n", kv.first.c_str(), b.text.c_str());
   for (auto &s : g_profiles) printf("@OUTCOME %s\n", s.c_str());
   for (auto &kv : g_sigcount) printf("@STAT evals_with:%s=%ld\n", kv.first.c_str(), kv.second);
-  printf("@STAT states=%ld transitions=%ld executions=%ld programs=%ld programs_rejected_by_add=%ld programs_add_topdown=%ld programs_addAs_bottomup=%ld programs_add_defaultarg_bottomup=%ld programs_addAs_topdown=%ld "
+  printf("@STAT states=%ld transitions=%ld executions=%ld programs=%ld programs_rejected_by_add=%ld programs_add_topdown=%ld programs_addAs_bottomup=%ld programs_add_defaultarg_bottomup=%ld programs_addAs_topdown=%ld programs_last_child_added_from_onInit=%ld programs_frontend_with_real_fillDefaultConfig=%ld real_fillDefaultConfig_equal_to_config_written_from_tree=%ld "
          "hooks_observed=%ld hooklogs_distinct_sum_over_partitions=%zu reference_model_runs=%ld optional_subtree_reductions=%ld balance_judged=%ld balance_judged_children_destroy_only=%ld frontend_scripts=%ld frontend_scripts_initialize_fails=%ld "
          "failing_hooks_of_required=%ld failing_hooks_of_optional=%ld evaluations_with_failing_hook=%ld evaluations_with_successful_retry_after_failure=%ld adds_expected_refused=%ld "
          "destroy_only_final_identical_to_cleanup_destroy_not_rerun=%ld evaluations_with_violation=%ld xcheck_programs=%ld xcheck_plain_sequences=%ld programs_bfs_fixpoint=%ld mode_assignments_pruned_below_never_initialising_module=%ld\n",
-         c_states, c_trans, c_exec, c_programs, c_rejected, c_prog_var[0], c_prog_var[1], c_prog_var[2], c_prog_var[3],
+         c_states, c_trans, c_exec, c_programs, c_rejected, c_prog_var[0], c_prog_var[1], c_prog_var[2], c_prog_var[3], c_prog_var[4], c_realfill, c_realfill_same,
          c_hooks, g_loghashes.size(), c_model_runs, c_meta, c_balance_judged, c_balance_judged_children, c_frontend, c_frontend_initfail,
          c_pass_req_fail, c_pass_opt_fail, c_eval_with_failure_hook, c_retry_success, c_refused_adds, c_destroy_only_same, g_viol_evals, c_xcheck_progs, c_xcheck_seqs, c_fixpoint, c_pruned);
   if (k < 2) printf("@INFO part %d/%d: deepest history that reached a new canonical state has length %ld (depth bound %d); %ld of %ld programs reached the BFS fixpoint\n", k, K, c_maxdepth_new, depth, c_fixpoint, c_programs);
